@@ -107,7 +107,8 @@ def install_shapes(R):
     R.spec('wf_out', [('o', 'DNSOutgoing')], 'bool', 'o.size == 12 + bsum(o.data, len(o.data))')
     # data grew (or stayed) and nothing already written changed
     R.spec('data_prefix_kept', [('o', 'DNSOutgoing')], 'bool',
-           'len(o.data) >= old(len(o.data)) and forall("i:int", lambda i: implies(0 <= i and i < old(len(o.data)), o.data[i] == old(o.data[i])))')
+           'len(o.data) >= old(len(o.data)) and forall("i:int", lambda i: implies(0 <= i and i < old(len(o.data)), o.data[i] == old(o.data[i]))) '
+           'and forall("k:int", lambda k: implies(0 <= k and k <= old(len(o.data)), bsum(o.data, k) == old(bsum(o.data, k))))')
 
 
 GROW = ['wf_out(self)', 'data_prefix_kept(self)', 'self.size >= old(self.size)']
@@ -131,7 +132,8 @@ def install_primitives(R):
                raises={'struct.error': 'value >= 65536', 'IndexError': 'value < -128'},
                raises_exact=['struct.error', 'IndexError'],
                modifies=['self.data', 'self.size'], ensures_raise=same_on('struct.error', 'IndexError'),
-               ensures=GROW + ['self.size == old(self.size) + 2', 'len(self.data) == old(len(self.data)) + 1'])
+               ensures=GROW + ['self.size == old(self.size) + 2', 'len(self.data) == old(len(self.data)) + 1',
+                               'blen(self.data[len(self.data) - 1]) == 2'])
     R.contract(M, 'DNSOutgoing._write_int', P, params={'value': 'real'}, requires=['wf_out(self)'],
                raises={'struct.error': 'value <= -1 or value >= 4294967296'}, raises_exact=['struct.error'],
                modifies=['self.data', 'self.size'], ensures_raise=same_on('struct.error'),
@@ -223,3 +225,77 @@ def install_writers(R):
                ensures_raise={NP: GO, 'IndexError': GO, 'ValueError': GO}, trusted=True,
                note='NSEC bitmap construction (bytearray bit operations) is outside the engine: assumed to append chunks '
                     'with correct size bookkeeping, like every other write(); byte content is C01 K9', **W)
+
+
+LIM = 'ite(old(self.allow_long), 8966, 1460)'
+ENTRY_RAISES = {'NamePartTooLongException': 'True', 'IndexError': 'True', 'struct.error': 'True', 'ValueError': 'True'}
+# after one entry write: either it fits (appended, within the limit that applied) or everything is as before
+ENTRY_POST = [
+    'self.allow_long == False',
+    'wf_out(self)',
+    'implies(result, self.size <= %s and self.size >= old(self.size) and data_prefix_kept(self) '
+    '        and len(self.data) > old(len(self.data)))' % LIM,
+    'implies(not result, self.size == old(self.size) and len(self.data) == old(len(self.data)) and data_prefix_kept(self))',
+    'result == (self.size != old(self.size) or len(self.data) != old(len(self.data))) or not result',
+]
+# a whole section: w entries written; the size law that makes "more than 1460 only with a single entry" hold
+SECTION_POST = [
+    'wf_out(self)', 'data_prefix_kept(self)', 'self.size >= old(self.size)', 'result >= 0',
+    'self.size <= 1460 or (old(self.allow_long) and result == 1 and self.size <= 8966) or (result == 0 and self.size == old(self.size))',
+    'implies(result == 0, self.size == old(self.size) and len(self.data) == old(len(self.data)))',
+    'implies(result > 0, not self.allow_long)',
+    'implies(not old(self.allow_long), not self.allow_long)',
+]
+
+
+def install_entries(R):
+    R.contract(M, 'DNSOutgoing._check_data_limit_or_rollback', P,
+               params={'start_data_length': 'int', 'start_size': 'int'}, returns='bool',
+               requires=['wf_out(self)', '0 <= start_data_length and start_data_length <= len(self.data)',
+                         'start_size == 12 + bsum(self.data, start_data_length)'],
+               modifies=['self.data', 'self.size', 'self.names', 'self.allow_long'],
+               ensures=['self.allow_long == False', 'wf_out(self)',
+                        'result == (old(self.size) <= %s)' % LIM,
+                        'implies(result, self.size == old(self.size) and len(self.data) == old(len(self.data)) and data_prefix_kept(self))',
+                        'implies(not result, self.size == start_size and len(self.data) == start_data_length)',
+                        'forall("i:int", lambda i: implies(0 <= i and i < len(self.data), self.data[i] == old(self.data[i])))',
+                        'forall("k:int", lambda k: implies(0 <= k and k <= len(self.data), bsum(self.data, k) == old(bsum(self.data, k))))',
+                        # the name table keeps exactly the entries that point below the rollback point
+                        'implies(not result, forall("n:str", lambda n: self.names.has(n) == (old(self.names.has(n)) and old(self.names[n]) < start_size)))',
+                        'implies(result, forall("n:str", lambda n: self.names.has(n) == old(self.names.has(n))))',
+                        'forall("n:str", lambda n: implies(self.names.has(n), self.names[n] == old(self.names[n])))'],
+               loops={0: Loop(inv=[
+                   'forall("j:int", lambda j: implies(_k <= j and j < len(_it), self.names.has(_it[j])))',
+                   'forall("j:int, m:int", lambda j, m: implies(0 <= j and j < m and m < len(_it), _it[j] != _it[m]))',
+                   'forall("n:str", lambda n: self.names.has(n) == (old(self.names.has(n)) and not exists("j:int", lambda j: 0 <= j and j < _k and _it[j] == n)))',
+                   'forall("n:str", lambda n: implies(self.names.has(n), self.names[n] == old(self.names[n])))',
+                   'forall("j:int", lambda j: implies(0 <= j and j < len(_it), old(self.names.has(_it[j])) and old(self.names[_it[j]]) >= start_size))',
+                   'forall("n:str", lambda n: implies(old(self.names.has(n)) and old(self.names[n]) >= start_size, exists("j:int", lambda j: 0 <= j and j < len(_it) and _it[j] == n)))',
+               ], modifies=['self.names'])})
+    R.contract(M, 'DNSOutgoing._write_question', P, params={'question': 'DNSQuestion'}, returns='bool',
+               requires=['wf_out(self)', 'question is not None'],
+               raises=ENTRY_RAISES, modifies=['self.data', 'self.size', 'self.names', 'self.allow_long'],
+               ensures=ENTRY_POST[:4])
+    R.contract(M, 'DNSOutgoing._write_record', P, params={'record': 'DNSRecord', 'now': 'real'}, returns='bool',
+               requires=['wf_out(self)', 'record is not None'],
+               raises=ENTRY_RAISES, modifies=['self.data', 'self.size', 'self.names', 'self.allow_long'],
+               ensures=ENTRY_POST[:4],
+               loops={0: Loop(inv=['length == bsum(self.data, index + 1 + _k) - bsum(self.data, index + 1)',
+                                   'forall("j:int", lambda j: implies(0 <= j and j < len(_it), _it[j] == self.data[index + 1 + j]))',
+                                   'len(_it) == len(self.data) - (index + 1)', 'index >= 0'],
+                              lemmas=['bsum_unfold(self.data, index + 1 + _k)'], modifies=[])})
+    sect = dict(returns='int', raises=ENTRY_RAISES,
+                modifies=['self.data', 'self.size', 'self.names', 'self.allow_long'], ensures=SECTION_POST)
+    INV = ['wf_out(self)', 'data_prefix_kept(self)', 'self.size >= old(self.size)',
+           'self.size <= 1460 or (old(self.allow_long) and %s == 1 and self.size <= 8966) or (%s == 0 and self.size == old(self.size))',
+           'implies(%s == 0, self.size == old(self.size) and len(self.data) == old(len(self.data)) and self.allow_long == old(self.allow_long))',
+           'implies(%s > 0, not self.allow_long)', 'implies(not old(self.allow_long), not self.allow_long)', '%s == _k']
+    R.contract(M, 'DNSOutgoing._write_questions_from_offset', P, params={'questions_offset': 'int'},
+               requires=['wf_out(self)', 'forall("j:int", lambda j: implies(0 <= j and j < len(self.questions), self.questions[j] is not None))'],
+               loops={0: Loop(inv=[i.replace('%s', 'questions_written') for i in INV])}, **sect)
+    R.contract(M, 'DNSOutgoing._write_answers_from_offset', P, params={'answer_offset': 'int'},
+               requires=['wf_out(self)', 'forall("j:int", lambda j: implies(0 <= j and j < len(self.answers), self.answers[j][0] is not None))'],
+               loops={0: Loop(inv=[i.replace('%s', 'answers_written') for i in INV])}, **sect)
+    R.contract(M, 'DNSOutgoing._write_records_from_offset', P, params={'records': 'list[DNSRecord]', 'offset': 'int'},
+               requires=['wf_out(self)', 'forall("j:int", lambda j: implies(0 <= j and j < len(records), records[j] is not None))'],
+               loops={0: Loop(inv=[i.replace('%s', 'records_written') for i in INV])}, **sect)
